@@ -46,6 +46,18 @@ def check(col: Collector, tier: str):
     _imports(col)
     from sa.props._tr import check_rescope
     check_rescope(col, "C04.R9", repo)
+    # R10 the scope tokens the handlers capture and restore are immutable values, and helpers that only look things up leave the
+    # cursor where it was: both are what "restore the if's own scope before closing it" rests on
+    from sa.props._tr import ACTIVE_HANDLERS, check_core_scope_semantics
+    check_core_scope_semantics(col, "C04.R10", repo)
+    for name in ("as_sequence", "make_sequence_from_collection"):
+        f = m.get(name)
+        if f is None or name in ACTIVE_HANDLERS:
+            continue
+        moved = sorted({f"{r.kind}@{r.ev.node.lineno}" for recs, _, st in si.run(f) for r in cursor_actions(recs)})
+        col.add("C04.R10", f.short, "passive-handler-does-not-move-cursor", not moved,
+                f"{name} is called while a guard's block is being built: it may open the loop it creates but must not move the cursor into an existing one "
+                f"(cursor actions {moved}); a guarded First() would then land outside its guard", f.loc)
     # R7 a job that throws (First() on an empty sequence, at() past the end) must fail the run: the job step of every
     # runner stands in a plain errexit context, so its non-zero status ends the script before anything is delivered
     from sa.core.common import REPO
